@@ -10,7 +10,7 @@ import sys
 import numpy as np
 
 import featalg
-from common import Check, MachineryError, main_wrapper, tlc_printed_values
+from common import Check, MachineryError, main_wrapper, run_tlc, tlc_printed_values
 from ciderpress.dft import settings as S
 
 
@@ -195,6 +195,71 @@ def check_generated_counts(ck, rng):
             ck.violation("plan:large-exponent-guard", {"raise_flag": raise_flag, "raised": raised, "alpha_max": float(plan.alphas.max())})
 
 
+def plan_guard(ck):
+    """spec/PlanGuard.tla: every way a plan object can come to be (direct / derived with new()) x the guard flags; the
+    outcome of an evaluation with an exponent above the interpolation range must be in the admissible set."""
+    import models as M
+    from ciderpress.dft.plans import NLDFGaussianPlan, NLDFSplinePlan
+    r = run_tlc("PlanGuard", "MC_PlanGuard.cfg", workers=2, timeout=300)
+    if r.error:
+        raise MachineryError("TLC PlanGuard: " + r.error)
+    ck.add_tlc("PlanGuard", r)
+    for v in r.violated:
+        ck.violation("model:PlanGuard:" + v, {})
+    cases = tlc_printed_values(r.out, "GUARDCASE")
+    if len(cases) < 100:
+        raise MachineryError("PlanGuard emitted %d cases" % len(cases))
+    nl = M.nldf_settings("j", "MGGA", "one")
+    CLS = {"gaussian": NLDFGaussianPlan, "spline": NLDFSplinePlan}
+    B = {"T": True, "F": False}
+    rho_t = (np.array([5.0, 0.3, 1e-12]), np.array([0.1, 0.02, 0.0]), np.array([3.0, 0.05, 0.0]))   # point 0: exponent >> alpha_max
+
+    def construct(cls, **kw):
+        args = (nl, 1, 1e-3, 1.8, 6) if cls is NLDFGaussianPlan else (nl, 1, 1e-3, 1.8, 6)
+        return cls(*args, **kw)
+
+    def evaluate(plan):
+        try:
+            out = plan.get_interpolation_arguments(tuple(x.copy() for x in rho_t), i=-1)
+        except RuntimeError:
+            return "raises", None
+        return "value", [np.asarray(o, dtype=float) for o in (out if isinstance(out, (tuple, list)) else [out])]
+    for c, adm in cases:
+        cls = CLS[c["cls"]]
+        bkw = {}
+        if c["bsmooth"] == "T":
+            bkw["use_smooth_expnt_cutoff"] = True
+        if c["braise"] != "unset":
+            bkw["raise_large_expnt_error"] = B[c["braise"]]
+        tag = "%s:base(smooth=%s,raise=%s):%s" % (c["cls"], c["bsmooth"], c["braise"],
+                                                  ("new(smooth=%s,raise=%s)" % (c["ksmooth"], c["kraise"])) if c["derive"] else "direct")
+        ck.count(key=tag)
+        try:
+            plan = construct(cls, **bkw)
+            if c["derive"]:
+                kkw = {}
+                if c["ksmooth"] != "unset":
+                    kkw["use_smooth_expnt_cutoff"] = B[c["ksmooth"]]
+                if c["kraise"] != "unset":
+                    kkw["raise_large_expnt_error"] = B[c["kraise"]]
+                plan = plan.new(**kkw)
+            kind, val = evaluate(plan)
+        except Exception as ex:  # noqa: BLE001
+            ck.violation("plan-guard:%s:%s" % (type(ex).__name__, tag), {"case": c, "msg": str(ex)[:200]})
+            continue
+        if kind == "value":
+            # classify against plans constructed DIRECTLY with the same class: the smooth one and the unguarded one
+            _, cap = evaluate(construct(cls, use_smooth_expnt_cutoff=True))
+            _, raw = evaluate(construct(cls, raise_large_expnt_error=False))
+            same = lambda a, b: a is not None and b is not None and len(a) == len(b) and all(x.shape == y.shape and np.array_equal(x, y, equal_nan=True) for x, y in zip(a, b))
+            kinds = {k_ for k_, ref in (("capped", cap), ("unguarded", raw)) if same(val, ref)} or {"unguarded(other)"}
+            # (for the spline plan the damped and the clamped exponent index coincide: the outcome is then either)
+            kind = sorted(kinds & set(adm))[0] if kinds & set(adm) else sorted(kinds)[-1]
+        if kind not in set(adm):
+            ck.violation("plan-guard:%s:%s-not-admissible" % ("derived" if c["derive"] else "direct", kind.split("(")[0]),
+                         {"case": c, "outcome": kind, "admissible": sorted(adm), "how": tag}, replay={"case": c})
+
+
 def canary_tests(ck, rng):
     """ctypes entry points on canary-framed arrays: guard zones must stay intact."""
     import ctypes
@@ -296,6 +361,7 @@ def main():
         raise MachineryError("TLC(plan args): " + r2.error)
     check_plan_args(ck, r2.out)
     check_generated_counts(ck, rng)
+    plan_guard(ck)
     canary_tests(ck, rng)
     subprocess_guards(ck)
     ck.assumptions = ["canary frames detect out-of-bounds WRITES only (stray reads show up only as wrong results elsewhere)",
